@@ -711,7 +711,7 @@ def main(chk: Check, build=True):
                 "scale": rng.choice([None, None, q16(rng, 50, 2000)]), "thr": rng.choice([0, 0, 0, 0.3]),
                 "user_labels_only": ulo, "invisible_style": rng.choice([0, 0, 1, 2])}
         assign_videos(case, perfect)
-        return case
+        return rescore(case)
 
     def assign_videos(case, perfect):
         """1-3 videos: embedded in one file (same filename, different dataset), in different files, or a
@@ -783,6 +783,25 @@ def main(chk: Check, build=True):
             i += k
         case = {"n_nodes": 2, "frames": frames, "stddev": 0.025, "scale": None, "thr": 0}
         assign_videos(case, True)
+        return rescore(case)
+
+    SPECIAL_SCORES = [0.0, 0.0, -0.0, 5e-324, 1e-12, 1.0]
+
+    def rescore(case):
+        """instance scores: `score = 0.0` is a valid score and the sleap-io default.  12 % of the label pairs have
+        ALL prediction scores 0.0, 25 % mix the ordinary values with 0.0, -0.0, 5e-324, 1e-12 and 1.0.  The score
+        only orders the predictions (within a frame for matching, over all pairs for AP); it plays no role in
+        which instances take part."""
+        u = rng.random()
+        mode = "all_zero" if u < 0.12 else ("special" if u < 0.37 else "ordinary")
+        for f in case["frames"]:
+            if f["pr"] is None:
+                continue
+            if mode == "all_zero":
+                f["pr"] = [(0.0, p_) for _, p_ in f["pr"]]
+            elif mode == "special":
+                f["pr"] = [(rng.choice(SPECIAL_SCORES) if rng.random() < 0.5 else s_, p_) for s_, p_ in f["pr"]]
+        case["score_mode"] = mode
         return case
 
     def distinguishable(case):
@@ -924,6 +943,9 @@ def main(chk: Check, build=True):
             tags.append("has_empty_gt_instance")
         tags.append("user_labels_only" if case.get("user_labels_only", True) else "all_instances_mode")
         tags.append(f"invisible_style{case.get('invisible_style', 0)}")
+        tags.append("scores:" + case.get("score_mode", "fixed"))
+        if any(s_ == 0.0 for f in case["frames"] if f["pr"] for s_, _ in f["pr"]):
+            tags.append("has_score_exactly_0")
         mixed = any(f.get("user_in_pr") is not None and f["pr"] is not None for f in case["frames"])
         tags += [f"thr{case['thr']}", "scale:" + ("none" if case["scale"] is None else "number"), f"stddev{case['stddev']}"]
         if mixed:
